@@ -91,16 +91,60 @@ def index_container_history(ld, r, count):
     return fails
 
 
+def tile_shuffle_family(ld, r, count):
+    """tile(reps, shuffle=True): the eager reference shuffles every repetition on its own (reps draws from the global numpy
+    generator) and concatenates them; iterating again gives the same sequence."""
+    import numpy as np
+    fails = []
+    for _ in range(count):
+        n, reps, sd = r.randint(0, 7), r.randint(1, 4), r.randint(0, 10 ** 6)
+        keyed = r.random() < 0.4
+        vals = [10 * (i + 1) for i in range(n)]
+        mk = (lambda: ld.new({f'key{i}': v for i, v in enumerate(vals)})) if keyed else (lambda: ld.new(list(vals)))
+        stack = r.choice(['plain', 'map', 'slice'])
+        def top(d):
+            return d if stack == 'plain' else d.map(lambda x: x + 1) if stack == 'map' else d[::-1]
+        try:
+            np.random.seed(sd)
+            t = top(mk()).tile(reps, shuffle=True)
+            got = [list(t), list(t), [t[i] for i in range(len(t))], len(t)]
+        except Exception as e:
+            got = ('refused', type(e).__name__)
+        try:
+            np.random.seed(sd)
+            parts = [list(top(mk()).shuffle()) for _ in range(reps)]
+            ref = [x for p in parts for x in p]
+            want = [ref, ref, ref, len(ref)]
+        except Exception as e:
+            want = ('refused', type(e).__name__)
+        if n == 0:
+            ok = got == want or (got[0] == 'refused' and want[0] == 'refused') or got == [[], [], [], 0]
+        else:
+            ok = got == want and got[0] != 'refused'
+        if not ok:
+            fails.append(dict(kind='history', summary=f'tile({reps}, shuffle=True) over {n} examples ({"dict" if keyed else "list"} source, {stack}) under numpy seed {sd}: '
+                              f'got {got!r}; the concatenation of {reps} independent shuffles is {want!r}'[:700], config=dict(n=n, reps=reps, seed=sd, keyed=keyed, stack=stack)))
+    return fails
+
+
 def run(tier):
     r = common.rng_for('C01-long')
     extra = long_sources(r, 60 if tier == 'quick' else 1500)
     res = model_a.run_a('C01', tier, WANT | {'index'}, n_quick=1500, n_thorough=40000, extra_nodes=extra)
     res['coverage']['long_source_programs'] = len(extra)
     ld = common.import_impl()
+    res['failures'] += tile_shuffle_family(ld, common.rng_for('C01-tile'), 120 if tier == 'quick' else 3000)
     res['failures'] += index_container_history(ld, common.rng_for('C01-idx'), 150 if tier == 'quick' else 2500)
     res['coverage']['index_container_histories'] = 150 if tier == 'quick' else 2500
     return res
 
 
 def replay(payload):
+    if 'program' not in payload:
+        # the direct families (tile with shuffle, index containers): re-run the whole family against VERIF_REPO
+        ld = common.import_impl()
+        ff = tile_shuffle_family(ld, common.rng_for('C01-tile'), 120) + index_container_history(ld, common.rng_for('C01-idx'), 150)
+        for f in ff[:3]:
+            print('  ', f['summary'][:300])
+        return bool(ff)
     return model_a.replay_a(payload)
